@@ -10,6 +10,10 @@ A_NOTE = ("Trusted: std::sync::mpsc and the 30-line native transport (the simula
           "hash-iteration order pinned by the hooks; scenario templates over a stated grid.")
 
 CHECKS = {
+    "C08": dict(engine="enum", category="exploration", design="5.1, 7/C08",
+                technique="exhaustive product of literal values x static-type forms x pattern types x test forms, each its own program, judged by a host-side structural membership model in three execution configurations",
+                text="23 values x 3 ways the value reaches the test (exact type / widened by never-taken alternatives) x 26 pattern types (unions, partials, named/unnamed tuples, recursive list alias, function type) x 6 test forms (type pattern, as-pattern, typed tuple field, partial field, block branch, function dispatch) = 10764 programs: accept => the value inhabits the type; value at its most specific type inhabiting the type => accept; verdict identical directly, tree-shaken, and after real merges into an environment that already holds independently compiled pool programs (every table index shifted); plus 30 typed-receive programs (a typed receive takes the earliest message of its type).",
+                note="Host membership model covers the listed values/types only; function types 'unknown'; resource types covered by C14 scenarios."),
     "C19": dict(engine="enum", category="model_checking", design="7/C19",
                 technique="explicit-state breadth-first search over operation histories of the real %dict (states are real dict values in real REPL sessions) against a BTreeMap reference",
                 text="Keys chosen by exhaustive search (a full 32-bit FNV-1a collision triple incl. Str vs binary, siblings agreeing on 1..6 five-bit fragments, unrelated and edge-slot keys); BFS over all put(k, v in {1,2}) / remove(k) sequences to depth 5 (thorough: to a fixpoint for three key sets): after every transition get of the affected key and count, once per state get/has? of every key, count, entries/keys/values/iter as multisets, from(entries), merge both ways against a value-swapped version; every earlier version re-observed at the end (persistence).",
